@@ -183,6 +183,22 @@ def resolve_exact_name(name, spec):
     return spec["path"] + "::" + name
 
 
+LIVE_PGIDS = set()
+SCRATCH_DIRS = []
+
+
+def _terminate(signum, frame):
+    """SIGTERM/SIGINT: children run in their own sessions, so they would survive the runner; kill them and drop the scratch copy"""
+    for pg in list(LIVE_PGIDS):
+        try:
+            os.killpg(pg, signal.SIGKILL)
+        except (ProcessLookupError, PermissionError):
+            pass
+    for d in SCRATCH_DIRS:
+        shutil.rmtree(d, ignore_errors=True)
+    os._exit(130)
+
+
 def run_limited(cmd, cwd, logf, timeout_s, mem_gb):
     env = dict(os.environ)
     env["CARGO_NET_OFFLINE"] = "true"
@@ -193,6 +209,7 @@ def run_limited(cmd, cwd, logf, timeout_s, mem_gb):
     with open(logf, "w") as fh:
         p = subprocess.Popen(["bash", "-c", sh], cwd=cwd, stdout=fh, stderr=subprocess.STDOUT, env=env,
                              start_new_session=True)
+        LIVE_PGIDS.add(p.pid)
         try:
             rc = p.wait(timeout=timeout_s)
             timed_out = False
@@ -204,6 +221,8 @@ def run_limited(cmd, cwd, logf, timeout_s, mem_gb):
                 pass
             p.wait()
             rc = -9
+        finally:
+            LIVE_PGIDS.discard(p.pid)
     return rc, timed_out, time.time() - t0
 
 
@@ -217,6 +236,8 @@ def run_job(scratch, job, logdir, tier):
     mem = spec.get("mem_gb", 12)
     extra = []
     cbmc_args = list(spec.get("cbmc_args", []))
+    if os.environ.get("VERIF_CBMC_EXTRA") and "--max-field-sensitivity-array-size" not in cbmc_args:
+        cbmc_args += os.environ["VERIF_CBMC_EXTRA"].split()  # development only: try a CBMC option on registered harnesses
     if spec.get("unwindset"):
         us = resolve_unwindset(scratch, name, full, spec, logdir)
         if us is None:
@@ -498,6 +519,9 @@ def main(argv):
         log("no checks registered for %s" % pid)
         return 2
     scratch = make_scratch(pid or "x")
+    SCRATCH_DIRS.append(scratch)
+    signal.signal(signal.SIGTERM, _terminate)
+    signal.signal(signal.SIGINT, _terminate)
     logdir = os.path.join(VERIF, "logs", "%s.%s" % (pid, tier))
     lock = os.path.join(logdir, ".pid")
     try:
